@@ -10,304 +10,304 @@ Theorem C23_cauchy_to_pk1 : forall a b : nat -> R,
   (cauchy_to_pk1_1 a b = flat_t 1%nat (spec_cauchy_to_pk1 1%nat (full_s 1%nat a) (full_t 1%nat b))) /\
   (cauchy_to_pk1_2 a b = flat_t 2%nat (spec_cauchy_to_pk1 2%nat (full_s 2%nat a) (full_t 2%nat b))) /\
   (cauchy_to_pk1_3 a b = flat_t 3%nat (spec_cauchy_to_pk1 3%nat (full_s 3%nat a) (full_t 3%nat b))).
-Proof. intros; exact (conj (cauchy_to_pk1_1_ok a b) (conj (cauchy_to_pk1_2_ok a b) (cauchy_to_pk1_3_ok a b))). Qed.
+Proof. intros a b; exact (conj (cauchy_to_pk1_1_ok a b) (conj (cauchy_to_pk1_2_ok a b) (cauchy_to_pk1_3_ok a b))). Qed.
 Print Assumptions C23_cauchy_to_pk1.
 
 Theorem C23_pk1_to_cauchy : forall a b : nat -> R,
   (det2 (full_t 1%nat b) <> 0 -> pk1_to_cauchy_1 a b = flat_s 1%nat (spec_pk1_to_cauchy 1%nat (full_t 1%nat a) (full_t 1%nat b))) /\
   (det2 (full_t 2%nat b) <> 0 -> pk1_to_cauchy_2 a b = flat_s 2%nat (spec_pk1_to_cauchy 2%nat (full_t 2%nat a) (full_t 2%nat b))) /\
   (det2 (full_t 3%nat b) <> 0 -> pk1_to_cauchy_3 a b = flat_s 3%nat (spec_pk1_to_cauchy 3%nat (full_t 3%nat a) (full_t 3%nat b))).
-Proof. intros; exact (conj (pk1_to_cauchy_1_ok a b) (conj (pk1_to_cauchy_2_ok a b) (pk1_to_cauchy_3_ok a b))). Qed.
+Proof. intros a b; exact (conj (pk1_to_cauchy_1_ok a b) (conj (pk1_to_cauchy_2_ok a b) (pk1_to_cauchy_3_ok a b))). Qed.
 Print Assumptions C23_pk1_to_cauchy.
 
 Theorem C23_cauchy_to_pk2 : forall a b : nat -> R,
   (det2 (full_t 1%nat b) <> 0 -> cauchy_to_pk2_1 a b = flat_s 1%nat (spec_cauchy_to_pk2 1%nat (full_s 1%nat a) (full_t 1%nat b))) /\
   (det2 (full_t 2%nat b) <> 0 -> cauchy_to_pk2_2 a b = flat_s 2%nat (spec_cauchy_to_pk2 2%nat (full_s 2%nat a) (full_t 2%nat b))) /\
   (det2 (full_t 3%nat b) <> 0 -> cauchy_to_pk2_3 a b = flat_s 3%nat (spec_cauchy_to_pk2 3%nat (full_s 3%nat a) (full_t 3%nat b))).
-Proof. intros; exact (conj (cauchy_to_pk2_1_ok a b) (conj (cauchy_to_pk2_2_ok a b) (cauchy_to_pk2_3_ok a b))). Qed.
+Proof. intros a b; exact (conj (cauchy_to_pk2_1_ok a b) (conj (cauchy_to_pk2_2_ok a b) (cauchy_to_pk2_3_ok a b))). Qed.
 Print Assumptions C23_cauchy_to_pk2.
 
 Theorem C23_pk2_to_cauchy : forall a b : nat -> R,
   (det2 (full_t 1%nat b) <> 0 -> pk2_to_cauchy_1 a b = flat_s 1%nat (spec_pk2_to_cauchy 1%nat (full_s 1%nat a) (full_t 1%nat b))) /\
   (det2 (full_t 2%nat b) <> 0 -> pk2_to_cauchy_2 a b = flat_s 2%nat (spec_pk2_to_cauchy 2%nat (full_s 2%nat a) (full_t 2%nat b))) /\
   (det2 (full_t 3%nat b) <> 0 -> pk2_to_cauchy_3 a b = flat_s 3%nat (spec_pk2_to_cauchy 3%nat (full_s 3%nat a) (full_t 3%nat b))).
-Proof. intros; exact (conj (pk2_to_cauchy_1_ok a b) (conj (pk2_to_cauchy_2_ok a b) (pk2_to_cauchy_3_ok a b))). Qed.
+Proof. intros a b; exact (conj (pk2_to_cauchy_1_ok a b) (conj (pk2_to_cauchy_2_ok a b) (pk2_to_cauchy_3_ok a b))). Qed.
 Print Assumptions C23_pk2_to_cauchy.
 
 Theorem C23_rt_cauchy_pk1 : forall a b : nat -> R,
   (det2 (full_t 1%nat b) <> 0 -> rt_cauchy_pk1_1 a b = flat_s 1%nat (spec_rt_cauchy_pk1 1%nat (full_s 1%nat a) (full_t 1%nat b))) /\
   (det2 (full_t 2%nat b) <> 0 -> rt_cauchy_pk1_2 a b = flat_s 2%nat (spec_rt_cauchy_pk1 2%nat (full_s 2%nat a) (full_t 2%nat b))) /\
   (det2 (full_t 3%nat b) <> 0 -> rt_cauchy_pk1_3 a b = flat_s 3%nat (spec_rt_cauchy_pk1 3%nat (full_s 3%nat a) (full_t 3%nat b))).
-Proof. intros; exact (conj (rt_cauchy_pk1_1_ok a b) (conj (rt_cauchy_pk1_2_ok a b) (rt_cauchy_pk1_3_ok a b))). Qed.
+Proof. intros a b; exact (conj (rt_cauchy_pk1_1_ok a b) (conj (rt_cauchy_pk1_2_ok a b) (rt_cauchy_pk1_3_ok a b))). Qed.
 Print Assumptions C23_rt_cauchy_pk1.
 
 Theorem C23_rt_cauchy_pk2 : forall a b : nat -> R,
   (det2 (full_t 1%nat b) <> 0 -> rt_cauchy_pk2_1 a b = flat_s 1%nat (spec_rt_cauchy_pk2 1%nat (full_s 1%nat a) (full_t 1%nat b))) /\
   (det2 (full_t 2%nat b) <> 0 -> rt_cauchy_pk2_2 a b = flat_s 2%nat (spec_rt_cauchy_pk2 2%nat (full_s 2%nat a) (full_t 2%nat b))) /\
   (det2 (full_t 3%nat b) <> 0 -> rt_cauchy_pk2_3 a b = flat_s 3%nat (spec_rt_cauchy_pk2 3%nat (full_s 3%nat a) (full_t 3%nat b))).
-Proof. intros; exact (conj (rt_cauchy_pk2_1_ok a b) (conj (rt_cauchy_pk2_2_ok a b) (rt_cauchy_pk2_3_ok a b))). Qed.
+Proof. intros a b; exact (conj (rt_cauchy_pk2_1_ok a b) (conj (rt_cauchy_pk2_2_ok a b) (rt_cauchy_pk2_3_ok a b))). Qed.
 Print Assumptions C23_rt_cauchy_pk2.
 
 Theorem C23_rt_pk2_cauchy : forall a b : nat -> R,
   (det2 (full_t 1%nat b) <> 0 -> rt_pk2_cauchy_1 a b = flat_s 1%nat (spec_rt_pk2_cauchy 1%nat (full_s 1%nat a) (full_t 1%nat b))) /\
   (det2 (full_t 2%nat b) <> 0 -> rt_pk2_cauchy_2 a b = flat_s 2%nat (spec_rt_pk2_cauchy 2%nat (full_s 2%nat a) (full_t 2%nat b))).
-Proof. intros; exact (conj (rt_pk2_cauchy_1_ok a b) (rt_pk2_cauchy_2_ok a b)). Qed.
+Proof. intros a b; exact (conj (rt_pk2_cauchy_1_ok a b) (rt_pk2_cauchy_2_ok a b)). Qed.
 Print Assumptions C23_rt_pk2_cauchy.
 
 Theorem C23_corot_to_pk2 : forall a b : nat -> R,
   (det2 (full_s 1%nat b) <> 0 -> corot_to_pk2_1 a b = flat_s 1%nat (spec_corot_to_pk2 1%nat (full_s 1%nat a) (full_s 1%nat b))).
-Proof. intros; exact (corot_to_pk2_1_ok a b). Qed.
+Proof. intros a b; exact (corot_to_pk2_1_ok a b). Qed.
 Print Assumptions C23_corot_to_pk2.
 
 Theorem C23_pk2_to_corot : forall a b : nat -> R,
   (det2 (full_s 1%nat b) <> 0 -> pk2_to_corot_1 a b = flat_s 1%nat (spec_pk2_to_corot 1%nat (full_s 1%nat a) (full_s 1%nat b))).
-Proof. intros; exact (pk2_to_corot_1_ok a b). Qed.
+Proof. intros a b; exact (pk2_to_corot_1_ok a b). Qed.
 Print Assumptions C23_pk2_to_corot.
 
 Theorem C23_jaumann_moduli : forall a b : nat -> R,
   (jaumann_moduli_1 a b = flat_A 1%nat (spec_jaumann_moduli 1%nat (full_A 1%nat a) (full_s 1%nat b))) /\
   (jaumann_moduli_2 a b = flat_A 2%nat (spec_jaumann_moduli 2%nat (full_A 2%nat a) (full_s 2%nat b))) /\
   (jaumann_moduli_3 a b = flat_A 3%nat (spec_jaumann_moduli 3%nat (full_A 3%nat a) (full_s 3%nat b))).
-Proof. intros; exact (conj (jaumann_moduli_1_ok a b) (conj (jaumann_moduli_2_ok a b) (jaumann_moduli_3_ok a b))). Qed.
+Proof. intros a b; exact (conj (jaumann_moduli_1_ok a b) (conj (jaumann_moduli_2_ok a b) (jaumann_moduli_3_ok a b))). Qed.
 Print Assumptions C23_jaumann_moduli.
 
 Theorem C23_rate_of_deformation_derivative : forall a : nat -> R,
   (det2 (full_t 1%nat a) <> 0 -> rate_of_deformation_derivative_1 a = flat_C 1%nat (spec_rate_of_deformation_derivative 1%nat (full_t 1%nat a))) /\
   (det2 (full_t 2%nat a) <> 0 -> rate_of_deformation_derivative_2 a = flat_C 2%nat (spec_rate_of_deformation_derivative 2%nat (full_t 2%nat a))) /\
   (det2 (full_t 3%nat a) <> 0 -> rate_of_deformation_derivative_3 a = flat_C 3%nat (spec_rate_of_deformation_derivative 3%nat (full_t 3%nat a))).
-Proof. intros; exact (conj (rate_of_deformation_derivative_1_ok a) (conj (rate_of_deformation_derivative_2_ok a) (rate_of_deformation_derivative_3_ok a))). Qed.
+Proof. intros a; exact (conj (rate_of_deformation_derivative_1_ok a) (conj (rate_of_deformation_derivative_2_ok a) (rate_of_deformation_derivative_3_ok a))). Qed.
 Print Assumptions C23_rate_of_deformation_derivative.
 
 Theorem C23_spin_rate_derivative : forall a : nat -> R,
   (det2 (full_t 1%nat a) <> 0 -> spin_rate_derivative_1 a = flat_B 1%nat (spec_spin_rate_derivative 1%nat (full_t 1%nat a))) /\
   (det2 (full_t 2%nat a) <> 0 -> spin_rate_derivative_2 a = flat_B 2%nat (spec_spin_rate_derivative 2%nat (full_t 2%nat a))) /\
   (det2 (full_t 3%nat a) <> 0 -> spin_rate_derivative_3 a = flat_B 3%nat (spec_spin_rate_derivative 3%nat (full_t 3%nat a))).
-Proof. intros; exact (conj (spin_rate_derivative_1_ok a) (conj (spin_rate_derivative_2_ok a) (spin_rate_derivative_3_ok a))). Qed.
+Proof. intros a; exact (conj (spin_rate_derivative_1_ok a) (conj (spin_rate_derivative_2_ok a) (spin_rate_derivative_3_ok a))). Qed.
 Print Assumptions C23_spin_rate_derivative.
 
 Theorem C23_velocity_gradient_derivative : forall a : nat -> R,
   (det2 (full_t 1%nat a) <> 0 -> velocity_gradient_derivative_1 a = flat_B 1%nat (spec_velocity_gradient_derivative 1%nat (full_t 1%nat a))) /\
   (det2 (full_t 2%nat a) <> 0 -> velocity_gradient_derivative_2 a = flat_B 2%nat (spec_velocity_gradient_derivative 2%nat (full_t 2%nat a))) /\
   (det2 (full_t 3%nat a) <> 0 -> velocity_gradient_derivative_3 a = flat_B 3%nat (spec_velocity_gradient_derivative 3%nat (full_t 3%nat a))).
-Proof. intros; exact (conj (velocity_gradient_derivative_1_ok a) (conj (velocity_gradient_derivative_2_ok a) (velocity_gradient_derivative_3_ok a))). Qed.
+Proof. intros a; exact (conj (velocity_gradient_derivative_1_ok a) (conj (velocity_gradient_derivative_2_ok a) (velocity_gradient_derivative_3_ok a))). Qed.
 Print Assumptions C23_velocity_gradient_derivative.
 
 Theorem C23_DS_DC_from_DS_DEGL : forall a b c d : nat -> R,
   (DS_DC_from_DS_DEGL_1 a b c d = flat_A 1%nat (spec_DS_DC_from_DS_DEGL 1%nat (full_A 1%nat a) (full_t 1%nat b) (full_t 1%nat c) (full_s 1%nat d))) /\
   (DS_DC_from_DS_DEGL_2 a b c d = flat_A 2%nat (spec_DS_DC_from_DS_DEGL 2%nat (full_A 2%nat a) (full_t 2%nat b) (full_t 2%nat c) (full_s 2%nat d))) /\
   (DS_DC_from_DS_DEGL_3 a b c d = flat_A 3%nat (spec_DS_DC_from_DS_DEGL 3%nat (full_A 3%nat a) (full_t 3%nat b) (full_t 3%nat c) (full_s 3%nat d))).
-Proof. intros; exact (conj (DS_DC_from_DS_DEGL_1_ok a b c d) (conj (DS_DC_from_DS_DEGL_2_ok a b c d) (DS_DC_from_DS_DEGL_3_ok a b c d))). Qed.
+Proof. intros a b c d; exact (conj (DS_DC_from_DS_DEGL_1_ok a b c d) (conj (DS_DC_from_DS_DEGL_2_ok a b c d) (DS_DC_from_DS_DEGL_3_ok a b c d))). Qed.
 Print Assumptions C23_DS_DC_from_DS_DEGL.
 
 Theorem C23_DS_DEGL_from_DS_DC : forall a b c d : nat -> R,
   (DS_DEGL_from_DS_DC_1 a b c d = flat_A 1%nat (spec_DS_DEGL_from_DS_DC 1%nat (full_A 1%nat a) (full_t 1%nat b) (full_t 1%nat c) (full_s 1%nat d))) /\
   (DS_DEGL_from_DS_DC_2 a b c d = flat_A 2%nat (spec_DS_DEGL_from_DS_DC 2%nat (full_A 2%nat a) (full_t 2%nat b) (full_t 2%nat c) (full_s 2%nat d))) /\
   (DS_DEGL_from_DS_DC_3 a b c d = flat_A 3%nat (spec_DS_DEGL_from_DS_DC 3%nat (full_A 3%nat a) (full_t 3%nat b) (full_t 3%nat c) (full_s 3%nat d))).
-Proof. intros; exact (conj (DS_DEGL_from_DS_DC_1_ok a b c d) (conj (DS_DEGL_from_DS_DC_2_ok a b c d) (DS_DEGL_from_DS_DC_3_ok a b c d))). Qed.
+Proof. intros a b c d; exact (conj (DS_DEGL_from_DS_DC_1_ok a b c d) (conj (DS_DEGL_from_DS_DC_2_ok a b c d) (DS_DEGL_from_DS_DC_3_ok a b c d))). Qed.
 Print Assumptions C23_DS_DEGL_from_DS_DC.
 
 Theorem C23_SPATIAL_MODULI_from_DS_DEGL : forall a b c d : nat -> R,
   (SPATIAL_MODULI_from_DS_DEGL_1 a b c d = flat_A 1%nat (spec_SPATIAL_MODULI_from_DS_DEGL 1%nat (full_A 1%nat a) (full_t 1%nat b) (full_t 1%nat c) (full_s 1%nat d))) /\
   (SPATIAL_MODULI_from_DS_DEGL_2 a b c d = flat_A 2%nat (spec_SPATIAL_MODULI_from_DS_DEGL 2%nat (full_A 2%nat a) (full_t 2%nat b) (full_t 2%nat c) (full_s 2%nat d))).
-Proof. intros; exact (conj (SPATIAL_MODULI_from_DS_DEGL_1_ok a b c d) (SPATIAL_MODULI_from_DS_DEGL_2_ok a b c d)). Qed.
+Proof. intros a b c d; exact (conj (SPATIAL_MODULI_from_DS_DEGL_1_ok a b c d) (SPATIAL_MODULI_from_DS_DEGL_2_ok a b c d)). Qed.
 Print Assumptions C23_SPATIAL_MODULI_from_DS_DEGL.
 
 Theorem C23_DS_DF_from_DS_DC : forall a b c d : nat -> R,
   (DS_DF_from_DS_DC_1 a b c d = flat_C 1%nat (spec_DS_DF_from_DS_DC 1%nat (full_A 1%nat a) (full_t 1%nat b) (full_t 1%nat c) (full_s 1%nat d))) /\
   (DS_DF_from_DS_DC_2 a b c d = flat_C 2%nat (spec_DS_DF_from_DS_DC 2%nat (full_A 2%nat a) (full_t 2%nat b) (full_t 2%nat c) (full_s 2%nat d))) /\
   (DS_DF_from_DS_DC_3 a b c d = flat_C 3%nat (spec_DS_DF_from_DS_DC 3%nat (full_A 3%nat a) (full_t 3%nat b) (full_t 3%nat c) (full_s 3%nat d))).
-Proof. intros; exact (conj (DS_DF_from_DS_DC_1_ok a b c d) (conj (DS_DF_from_DS_DC_2_ok a b c d) (DS_DF_from_DS_DC_3_ok a b c d))). Qed.
+Proof. intros a b c d; exact (conj (DS_DF_from_DS_DC_1_ok a b c d) (conj (DS_DF_from_DS_DC_2_ok a b c d) (DS_DF_from_DS_DC_3_ok a b c d))). Qed.
 Print Assumptions C23_DS_DF_from_DS_DC.
 
 Theorem C23_C_TRUESDELL_from_SPATIAL_MODULI : forall a b c d : nat -> R,
   (det2 (full_t 1%nat c) <> 0 -> C_TRUESDELL_from_SPATIAL_MODULI_1 a b c d = flat_A 1%nat (spec_C_TRUESDELL_from_SPATIAL_MODULI 1%nat (full_A 1%nat a) (full_t 1%nat b) (full_t 1%nat c) (full_s 1%nat d))) /\
   (det2 (full_t 2%nat c) <> 0 -> C_TRUESDELL_from_SPATIAL_MODULI_2 a b c d = flat_A 2%nat (spec_C_TRUESDELL_from_SPATIAL_MODULI 2%nat (full_A 2%nat a) (full_t 2%nat b) (full_t 2%nat c) (full_s 2%nat d))) /\
   (det2 (full_t 3%nat c) <> 0 -> C_TRUESDELL_from_SPATIAL_MODULI_3 a b c d = flat_A 3%nat (spec_C_TRUESDELL_from_SPATIAL_MODULI 3%nat (full_A 3%nat a) (full_t 3%nat b) (full_t 3%nat c) (full_s 3%nat d))).
-Proof. intros; exact (conj (C_TRUESDELL_from_SPATIAL_MODULI_1_ok a b c d) (conj (C_TRUESDELL_from_SPATIAL_MODULI_2_ok a b c d) (C_TRUESDELL_from_SPATIAL_MODULI_3_ok a b c d))). Qed.
+Proof. intros a b c d; exact (conj (C_TRUESDELL_from_SPATIAL_MODULI_1_ok a b c d) (conj (C_TRUESDELL_from_SPATIAL_MODULI_2_ok a b c d) (C_TRUESDELL_from_SPATIAL_MODULI_3_ok a b c d))). Qed.
 Print Assumptions C23_C_TRUESDELL_from_SPATIAL_MODULI.
 
 Theorem C23_SPATIAL_MODULI_from_C_TRUESDELL : forall a b c d : nat -> R,
   (SPATIAL_MODULI_from_C_TRUESDELL_1 a b c d = flat_A 1%nat (spec_SPATIAL_MODULI_from_C_TRUESDELL 1%nat (full_A 1%nat a) (full_t 1%nat b) (full_t 1%nat c) (full_s 1%nat d))) /\
   (SPATIAL_MODULI_from_C_TRUESDELL_2 a b c d = flat_A 2%nat (spec_SPATIAL_MODULI_from_C_TRUESDELL 2%nat (full_A 2%nat a) (full_t 2%nat b) (full_t 2%nat c) (full_s 2%nat d))) /\
   (SPATIAL_MODULI_from_C_TRUESDELL_3 a b c d = flat_A 3%nat (spec_SPATIAL_MODULI_from_C_TRUESDELL 3%nat (full_A 3%nat a) (full_t 3%nat b) (full_t 3%nat c) (full_s 3%nat d))).
-Proof. intros; exact (conj (SPATIAL_MODULI_from_C_TRUESDELL_1_ok a b c d) (conj (SPATIAL_MODULI_from_C_TRUESDELL_2_ok a b c d) (SPATIAL_MODULI_from_C_TRUESDELL_3_ok a b c d))). Qed.
+Proof. intros a b c d; exact (conj (SPATIAL_MODULI_from_C_TRUESDELL_1_ok a b c d) (conj (SPATIAL_MODULI_from_C_TRUESDELL_2_ok a b c d) (SPATIAL_MODULI_from_C_TRUESDELL_3_ok a b c d))). Qed.
 Print Assumptions C23_SPATIAL_MODULI_from_C_TRUESDELL.
 
 Theorem C23_C_TRUESDELL_from_DS_DEGL : forall a b c d : nat -> R,
   (det2 (full_t 1%nat c) <> 0 -> C_TRUESDELL_from_DS_DEGL_1 a b c d = flat_A 1%nat (spec_C_TRUESDELL_from_DS_DEGL 1%nat (full_A 1%nat a) (full_t 1%nat b) (full_t 1%nat c) (full_s 1%nat d))) /\
   (det2 (full_t 2%nat c) <> 0 -> C_TRUESDELL_from_DS_DEGL_2 a b c d = flat_A 2%nat (spec_C_TRUESDELL_from_DS_DEGL 2%nat (full_A 2%nat a) (full_t 2%nat b) (full_t 2%nat c) (full_s 2%nat d))).
-Proof. intros; exact (conj (C_TRUESDELL_from_DS_DEGL_1_ok a b c d) (C_TRUESDELL_from_DS_DEGL_2_ok a b c d)). Qed.
+Proof. intros a b c d; exact (conj (C_TRUESDELL_from_DS_DEGL_1_ok a b c d) (C_TRUESDELL_from_DS_DEGL_2_ok a b c d)). Qed.
 Print Assumptions C23_C_TRUESDELL_from_DS_DEGL.
 
 Theorem C23_DSIG_DDF_from_DSIG_DF : forall a b c d : nat -> R,
   (DSIG_DDF_from_DSIG_DF_1 a b c d = flat_C 1%nat (spec_DSIG_DDF_from_DSIG_DF 1%nat (full_C 1%nat a) (full_t 1%nat b) (full_t 1%nat c) (full_s 1%nat d))) /\
   (DSIG_DDF_from_DSIG_DF_2 a b c d = flat_C 2%nat (spec_DSIG_DDF_from_DSIG_DF 2%nat (full_C 2%nat a) (full_t 2%nat b) (full_t 2%nat c) (full_s 2%nat d))) /\
   (DSIG_DDF_from_DSIG_DF_3 a b c d = flat_C 3%nat (spec_DSIG_DDF_from_DSIG_DF 3%nat (full_C 3%nat a) (full_t 3%nat b) (full_t 3%nat c) (full_s 3%nat d))).
-Proof. intros; exact (conj (DSIG_DDF_from_DSIG_DF_1_ok a b c d) (conj (DSIG_DDF_from_DSIG_DF_2_ok a b c d) (DSIG_DDF_from_DSIG_DF_3_ok a b c d))). Qed.
+Proof. intros a b c d; exact (conj (DSIG_DDF_from_DSIG_DF_1_ok a b c d) (conj (DSIG_DDF_from_DSIG_DF_2_ok a b c d) (DSIG_DDF_from_DSIG_DF_3_ok a b c d))). Qed.
 Print Assumptions C23_DSIG_DDF_from_DSIG_DF.
 
 Theorem C23_DTAU_DDF_from_DTAU_DF : forall a b c d : nat -> R,
   (DTAU_DDF_from_DTAU_DF_1 a b c d = flat_C 1%nat (spec_DTAU_DDF_from_DTAU_DF 1%nat (full_C 1%nat a) (full_t 1%nat b) (full_t 1%nat c) (full_s 1%nat d))) /\
   (DTAU_DDF_from_DTAU_DF_2 a b c d = flat_C 2%nat (spec_DTAU_DDF_from_DTAU_DF 2%nat (full_C 2%nat a) (full_t 2%nat b) (full_t 2%nat c) (full_s 2%nat d))) /\
   (DTAU_DDF_from_DTAU_DF_3 a b c d = flat_C 3%nat (spec_DTAU_DDF_from_DTAU_DF 3%nat (full_C 3%nat a) (full_t 3%nat b) (full_t 3%nat c) (full_s 3%nat d))).
-Proof. intros; exact (conj (DTAU_DDF_from_DTAU_DF_1_ok a b c d) (conj (DTAU_DDF_from_DTAU_DF_2_ok a b c d) (DTAU_DDF_from_DTAU_DF_3_ok a b c d))). Qed.
+Proof. intros a b c d; exact (conj (DTAU_DDF_from_DTAU_DF_1_ok a b c d) (conj (DTAU_DDF_from_DTAU_DF_2_ok a b c d) (DTAU_DDF_from_DTAU_DF_3_ok a b c d))). Qed.
 Print Assumptions C23_DTAU_DDF_from_DTAU_DF.
 
 Theorem C23_DSIG_DF_from_DSIG_DDF : forall a b c d : nat -> R,
   (det2 (full_t 1%nat b) <> 0 -> DSIG_DF_from_DSIG_DDF_1 a b c d = flat_C 1%nat (spec_DSIG_DF_from_DSIG_DDF 1%nat (full_C 1%nat a) (full_t 1%nat b) (full_t 1%nat c) (full_s 1%nat d))) /\
   (det2 (full_t 2%nat b) <> 0 -> DSIG_DF_from_DSIG_DDF_2 a b c d = flat_C 2%nat (spec_DSIG_DF_from_DSIG_DDF 2%nat (full_C 2%nat a) (full_t 2%nat b) (full_t 2%nat c) (full_s 2%nat d))).
-Proof. intros; exact (conj (DSIG_DF_from_DSIG_DDF_1_ok a b c d) (DSIG_DF_from_DSIG_DDF_2_ok a b c d)). Qed.
+Proof. intros a b c d; exact (conj (DSIG_DF_from_DSIG_DDF_1_ok a b c d) (DSIG_DF_from_DSIG_DDF_2_ok a b c d)). Qed.
 Print Assumptions C23_DSIG_DF_from_DSIG_DDF.
 
 Theorem C23_DTAU_DF_from_DTAU_DDF : forall a b c d : nat -> R,
   (det2 (full_t 1%nat b) <> 0 -> DTAU_DF_from_DTAU_DDF_1 a b c d = flat_C 1%nat (spec_DTAU_DF_from_DTAU_DDF 1%nat (full_C 1%nat a) (full_t 1%nat b) (full_t 1%nat c) (full_s 1%nat d))) /\
   (det2 (full_t 2%nat b) <> 0 -> DTAU_DF_from_DTAU_DDF_2 a b c d = flat_C 2%nat (spec_DTAU_DF_from_DTAU_DDF 2%nat (full_C 2%nat a) (full_t 2%nat b) (full_t 2%nat c) (full_s 2%nat d))).
-Proof. intros; exact (conj (DTAU_DF_from_DTAU_DDF_1_ok a b c d) (DTAU_DF_from_DTAU_DDF_2_ok a b c d)). Qed.
+Proof. intros a b c d; exact (conj (DTAU_DF_from_DTAU_DDF_1_ok a b c d) (DTAU_DF_from_DTAU_DDF_2_ok a b c d)). Qed.
 Print Assumptions C23_DTAU_DF_from_DTAU_DDF.
 
 Theorem C23_DSIG_DF_from_DTAU_DF : forall a b c d : nat -> R,
   (det2 (full_t 1%nat c) <> 0 -> DSIG_DF_from_DTAU_DF_1 a b c d = flat_C 1%nat (spec_DSIG_DF_from_DTAU_DF 1%nat (full_C 1%nat a) (full_t 1%nat b) (full_t 1%nat c) (full_s 1%nat d))) /\
   (det2 (full_t 2%nat c) <> 0 -> DSIG_DF_from_DTAU_DF_2 a b c d = flat_C 2%nat (spec_DSIG_DF_from_DTAU_DF 2%nat (full_C 2%nat a) (full_t 2%nat b) (full_t 2%nat c) (full_s 2%nat d))).
-Proof. intros; exact (conj (DSIG_DF_from_DTAU_DF_1_ok a b c d) (DSIG_DF_from_DTAU_DF_2_ok a b c d)). Qed.
+Proof. intros a b c d; exact (conj (DSIG_DF_from_DTAU_DF_1_ok a b c d) (DSIG_DF_from_DTAU_DF_2_ok a b c d)). Qed.
 Print Assumptions C23_DSIG_DF_from_DTAU_DF.
 
 Theorem C23_ABAQUS_from_C_TAU_JAUMANN : forall a b c d : nat -> R,
   (det2 (full_t 1%nat c) <> 0 -> ABAQUS_from_C_TAU_JAUMANN_1 a b c d = flat_A 1%nat (spec_ABAQUS_from_C_TAU_JAUMANN 1%nat (full_A 1%nat a) (full_t 1%nat b) (full_t 1%nat c) (full_s 1%nat d))) /\
   (det2 (full_t 2%nat c) <> 0 -> ABAQUS_from_C_TAU_JAUMANN_2 a b c d = flat_A 2%nat (spec_ABAQUS_from_C_TAU_JAUMANN 2%nat (full_A 2%nat a) (full_t 2%nat b) (full_t 2%nat c) (full_s 2%nat d))) /\
   (det2 (full_t 3%nat c) <> 0 -> ABAQUS_from_C_TAU_JAUMANN_3 a b c d = flat_A 3%nat (spec_ABAQUS_from_C_TAU_JAUMANN 3%nat (full_A 3%nat a) (full_t 3%nat b) (full_t 3%nat c) (full_s 3%nat d))).
-Proof. intros; exact (conj (ABAQUS_from_C_TAU_JAUMANN_1_ok a b c d) (conj (ABAQUS_from_C_TAU_JAUMANN_2_ok a b c d) (ABAQUS_from_C_TAU_JAUMANN_3_ok a b c d))). Qed.
+Proof. intros a b c d; exact (conj (ABAQUS_from_C_TAU_JAUMANN_1_ok a b c d) (conj (ABAQUS_from_C_TAU_JAUMANN_2_ok a b c d) (ABAQUS_from_C_TAU_JAUMANN_3_ok a b c d))). Qed.
 Print Assumptions C23_ABAQUS_from_C_TAU_JAUMANN.
 
 Theorem C23_C_TAU_JAUMANN_from_ABAQUS : forall a b c d : nat -> R,
   (C_TAU_JAUMANN_from_ABAQUS_1 a b c d = flat_A 1%nat (spec_C_TAU_JAUMANN_from_ABAQUS 1%nat (full_A 1%nat a) (full_t 1%nat b) (full_t 1%nat c) (full_s 1%nat d))) /\
   (C_TAU_JAUMANN_from_ABAQUS_2 a b c d = flat_A 2%nat (spec_C_TAU_JAUMANN_from_ABAQUS 2%nat (full_A 2%nat a) (full_t 2%nat b) (full_t 2%nat c) (full_s 2%nat d))) /\
   (C_TAU_JAUMANN_from_ABAQUS_3 a b c d = flat_A 3%nat (spec_C_TAU_JAUMANN_from_ABAQUS 3%nat (full_A 3%nat a) (full_t 3%nat b) (full_t 3%nat c) (full_s 3%nat d))).
-Proof. intros; exact (conj (C_TAU_JAUMANN_from_ABAQUS_1_ok a b c d) (conj (C_TAU_JAUMANN_from_ABAQUS_2_ok a b c d) (C_TAU_JAUMANN_from_ABAQUS_3_ok a b c d))). Qed.
+Proof. intros a b c d; exact (conj (C_TAU_JAUMANN_from_ABAQUS_1_ok a b c d) (conj (C_TAU_JAUMANN_from_ABAQUS_2_ok a b c d) (C_TAU_JAUMANN_from_ABAQUS_3_ok a b c d))). Qed.
 Print Assumptions C23_C_TAU_JAUMANN_from_ABAQUS.
 
 Theorem C23_C_TAU_JAUMANN_from_SPATIAL_MODULI : forall a b c d : nat -> R,
   (C_TAU_JAUMANN_from_SPATIAL_MODULI_1 a b c d = flat_A 1%nat (spec_C_TAU_JAUMANN_from_SPATIAL_MODULI 1%nat (full_A 1%nat a) (full_t 1%nat b) (full_t 1%nat c) (full_s 1%nat d))) /\
   (C_TAU_JAUMANN_from_SPATIAL_MODULI_2 a b c d = flat_A 2%nat (spec_C_TAU_JAUMANN_from_SPATIAL_MODULI 2%nat (full_A 2%nat a) (full_t 2%nat b) (full_t 2%nat c) (full_s 2%nat d))) /\
   (C_TAU_JAUMANN_from_SPATIAL_MODULI_3 a b c d = flat_A 3%nat (spec_C_TAU_JAUMANN_from_SPATIAL_MODULI 3%nat (full_A 3%nat a) (full_t 3%nat b) (full_t 3%nat c) (full_s 3%nat d))).
-Proof. intros; exact (conj (C_TAU_JAUMANN_from_SPATIAL_MODULI_1_ok a b c d) (conj (C_TAU_JAUMANN_from_SPATIAL_MODULI_2_ok a b c d) (C_TAU_JAUMANN_from_SPATIAL_MODULI_3_ok a b c d))). Qed.
+Proof. intros a b c d; exact (conj (C_TAU_JAUMANN_from_SPATIAL_MODULI_1_ok a b c d) (conj (C_TAU_JAUMANN_from_SPATIAL_MODULI_2_ok a b c d) (C_TAU_JAUMANN_from_SPATIAL_MODULI_3_ok a b c d))). Qed.
 Print Assumptions C23_C_TAU_JAUMANN_from_SPATIAL_MODULI.
 
 Theorem C23_SPATIAL_MODULI_from_C_TAU_JAUMANN : forall a b c d : nat -> R,
   (SPATIAL_MODULI_from_C_TAU_JAUMANN_1 a b c d = flat_A 1%nat (spec_SPATIAL_MODULI_from_C_TAU_JAUMANN 1%nat (full_A 1%nat a) (full_t 1%nat b) (full_t 1%nat c) (full_s 1%nat d))) /\
   (SPATIAL_MODULI_from_C_TAU_JAUMANN_2 a b c d = flat_A 2%nat (spec_SPATIAL_MODULI_from_C_TAU_JAUMANN 2%nat (full_A 2%nat a) (full_t 2%nat b) (full_t 2%nat c) (full_s 2%nat d))) /\
   (SPATIAL_MODULI_from_C_TAU_JAUMANN_3 a b c d = flat_A 3%nat (spec_SPATIAL_MODULI_from_C_TAU_JAUMANN 3%nat (full_A 3%nat a) (full_t 3%nat b) (full_t 3%nat c) (full_s 3%nat d))).
-Proof. intros; exact (conj (SPATIAL_MODULI_from_C_TAU_JAUMANN_1_ok a b c d) (conj (SPATIAL_MODULI_from_C_TAU_JAUMANN_2_ok a b c d) (SPATIAL_MODULI_from_C_TAU_JAUMANN_3_ok a b c d))). Qed.
+Proof. intros a b c d; exact (conj (SPATIAL_MODULI_from_C_TAU_JAUMANN_1_ok a b c d) (conj (SPATIAL_MODULI_from_C_TAU_JAUMANN_2_ok a b c d) (SPATIAL_MODULI_from_C_TAU_JAUMANN_3_ok a b c d))). Qed.
 Print Assumptions C23_SPATIAL_MODULI_from_C_TAU_JAUMANN.
 
 Theorem C23_ABAQUS_from_SPATIAL_MODULI : forall a b c d : nat -> R,
   (det2 (full_t 1%nat c) <> 0 -> ABAQUS_from_SPATIAL_MODULI_1 a b c d = flat_A 1%nat (spec_ABAQUS_from_SPATIAL_MODULI 1%nat (full_A 1%nat a) (full_t 1%nat b) (full_t 1%nat c) (full_s 1%nat d))) /\
   (det2 (full_t 2%nat c) <> 0 -> ABAQUS_from_SPATIAL_MODULI_2 a b c d = flat_A 2%nat (spec_ABAQUS_from_SPATIAL_MODULI 2%nat (full_A 2%nat a) (full_t 2%nat b) (full_t 2%nat c) (full_s 2%nat d))) /\
   (det2 (full_t 3%nat c) <> 0 -> ABAQUS_from_SPATIAL_MODULI_3 a b c d = flat_A 3%nat (spec_ABAQUS_from_SPATIAL_MODULI 3%nat (full_A 3%nat a) (full_t 3%nat b) (full_t 3%nat c) (full_s 3%nat d))).
-Proof. intros; exact (conj (ABAQUS_from_SPATIAL_MODULI_1_ok a b c d) (conj (ABAQUS_from_SPATIAL_MODULI_2_ok a b c d) (ABAQUS_from_SPATIAL_MODULI_3_ok a b c d))). Qed.
+Proof. intros a b c d; exact (conj (ABAQUS_from_SPATIAL_MODULI_1_ok a b c d) (conj (ABAQUS_from_SPATIAL_MODULI_2_ok a b c d) (ABAQUS_from_SPATIAL_MODULI_3_ok a b c d))). Qed.
 Print Assumptions C23_ABAQUS_from_SPATIAL_MODULI.
 
 Theorem C23_SPATIAL_MODULI_from_ABAQUS : forall a b c d : nat -> R,
   (SPATIAL_MODULI_from_ABAQUS_1 a b c d = flat_A 1%nat (spec_SPATIAL_MODULI_from_ABAQUS 1%nat (full_A 1%nat a) (full_t 1%nat b) (full_t 1%nat c) (full_s 1%nat d))) /\
   (SPATIAL_MODULI_from_ABAQUS_2 a b c d = flat_A 2%nat (spec_SPATIAL_MODULI_from_ABAQUS 2%nat (full_A 2%nat a) (full_t 2%nat b) (full_t 2%nat c) (full_s 2%nat d))) /\
   (SPATIAL_MODULI_from_ABAQUS_3 a b c d = flat_A 3%nat (spec_SPATIAL_MODULI_from_ABAQUS 3%nat (full_A 3%nat a) (full_t 3%nat b) (full_t 3%nat c) (full_s 3%nat d))).
-Proof. intros; exact (conj (SPATIAL_MODULI_from_ABAQUS_1_ok a b c d) (conj (SPATIAL_MODULI_from_ABAQUS_2_ok a b c d) (SPATIAL_MODULI_from_ABAQUS_3_ok a b c d))). Qed.
+Proof. intros a b c d; exact (conj (SPATIAL_MODULI_from_ABAQUS_1_ok a b c d) (conj (SPATIAL_MODULI_from_ABAQUS_2_ok a b c d) (SPATIAL_MODULI_from_ABAQUS_3_ok a b c d))). Qed.
 Print Assumptions C23_SPATIAL_MODULI_from_ABAQUS.
 
 Theorem C23_ABAQUS_from_DS_DEGL : forall a b c d : nat -> R,
   (det2 (full_t 1%nat c) <> 0 -> ABAQUS_from_DS_DEGL_1 a b c d = flat_A 1%nat (spec_ABAQUS_from_DS_DEGL 1%nat (full_A 1%nat a) (full_t 1%nat b) (full_t 1%nat c) (full_s 1%nat d))) /\
   (det2 (full_t 2%nat c) <> 0 -> ABAQUS_from_DS_DEGL_2 a b c d = flat_A 2%nat (spec_ABAQUS_from_DS_DEGL 2%nat (full_A 2%nat a) (full_t 2%nat b) (full_t 2%nat c) (full_s 2%nat d))).
-Proof. intros; exact (conj (ABAQUS_from_DS_DEGL_1_ok a b c d) (ABAQUS_from_DS_DEGL_2_ok a b c d)). Qed.
+Proof. intros a b c d; exact (conj (ABAQUS_from_DS_DEGL_1_ok a b c d) (ABAQUS_from_DS_DEGL_2_ok a b c d)). Qed.
 Print Assumptions C23_ABAQUS_from_DS_DEGL.
 
 Theorem C23_C_TAU_JAUMANN_from_DTAU_DF : forall a b c d : nat -> R,
   (C_TAU_JAUMANN_from_DTAU_DF_1 a b c d = flat_A 1%nat (spec_C_TAU_JAUMANN_from_DTAU_DF 1%nat (full_C 1%nat a) (full_t 1%nat b) (full_t 1%nat c) (full_s 1%nat d))) /\
   (C_TAU_JAUMANN_from_DTAU_DF_2 a b c d = flat_A 2%nat (spec_C_TAU_JAUMANN_from_DTAU_DF 2%nat (full_C 2%nat a) (full_t 2%nat b) (full_t 2%nat c) (full_s 2%nat d))) /\
   (C_TAU_JAUMANN_from_DTAU_DF_3 a b c d = flat_A 3%nat (spec_C_TAU_JAUMANN_from_DTAU_DF 3%nat (full_C 3%nat a) (full_t 3%nat b) (full_t 3%nat c) (full_s 3%nat d))).
-Proof. intros; exact (conj (C_TAU_JAUMANN_from_DTAU_DF_1_ok a b c d) (conj (C_TAU_JAUMANN_from_DTAU_DF_2_ok a b c d) (C_TAU_JAUMANN_from_DTAU_DF_3_ok a b c d))). Qed.
+Proof. intros a b c d; exact (conj (C_TAU_JAUMANN_from_DTAU_DF_1_ok a b c d) (conj (C_TAU_JAUMANN_from_DTAU_DF_2_ok a b c d) (C_TAU_JAUMANN_from_DTAU_DF_3_ok a b c d))). Qed.
 Print Assumptions C23_C_TAU_JAUMANN_from_DTAU_DF.
 
 Theorem C23_ABAQUS_from_DTAU_DF : forall a b c d : nat -> R,
   (det2 (full_t 1%nat c) <> 0 -> ABAQUS_from_DTAU_DF_1 a b c d = flat_A 1%nat (spec_ABAQUS_from_DTAU_DF 1%nat (full_C 1%nat a) (full_t 1%nat b) (full_t 1%nat c) (full_s 1%nat d))) /\
   (det2 (full_t 2%nat c) <> 0 -> ABAQUS_from_DTAU_DF_2 a b c d = flat_A 2%nat (spec_ABAQUS_from_DTAU_DF 2%nat (full_C 2%nat a) (full_t 2%nat b) (full_t 2%nat c) (full_s 2%nat d))) /\
   (det2 (full_t 3%nat c) <> 0 -> ABAQUS_from_DTAU_DF_3 a b c d = flat_A 3%nat (spec_ABAQUS_from_DTAU_DF 3%nat (full_C 3%nat a) (full_t 3%nat b) (full_t 3%nat c) (full_s 3%nat d))).
-Proof. intros; exact (conj (ABAQUS_from_DTAU_DF_1_ok a b c d) (conj (ABAQUS_from_DTAU_DF_2_ok a b c d) (ABAQUS_from_DTAU_DF_3_ok a b c d))). Qed.
+Proof. intros a b c d; exact (conj (ABAQUS_from_DTAU_DF_1_ok a b c d) (conj (ABAQUS_from_DTAU_DF_2_ok a b c d) (ABAQUS_from_DTAU_DF_3_ok a b c d))). Qed.
 Print Assumptions C23_ABAQUS_from_DTAU_DF.
 
 Theorem C23_SPATIAL_MODULI_from_DTAU_DF : forall a b c d : nat -> R,
   (SPATIAL_MODULI_from_DTAU_DF_1 a b c d = flat_A 1%nat (spec_SPATIAL_MODULI_from_DTAU_DF 1%nat (full_C 1%nat a) (full_t 1%nat b) (full_t 1%nat c) (full_s 1%nat d))) /\
   (SPATIAL_MODULI_from_DTAU_DF_2 a b c d = flat_A 2%nat (spec_SPATIAL_MODULI_from_DTAU_DF 2%nat (full_C 2%nat a) (full_t 2%nat b) (full_t 2%nat c) (full_s 2%nat d))) /\
   (SPATIAL_MODULI_from_DTAU_DF_3 a b c d = flat_A 3%nat (spec_SPATIAL_MODULI_from_DTAU_DF 3%nat (full_C 3%nat a) (full_t 3%nat b) (full_t 3%nat c) (full_s 3%nat d))).
-Proof. intros; exact (conj (SPATIAL_MODULI_from_DTAU_DF_1_ok a b c d) (conj (SPATIAL_MODULI_from_DTAU_DF_2_ok a b c d) (SPATIAL_MODULI_from_DTAU_DF_3_ok a b c d))). Qed.
+Proof. intros a b c d; exact (conj (SPATIAL_MODULI_from_DTAU_DF_1_ok a b c d) (conj (SPATIAL_MODULI_from_DTAU_DF_2_ok a b c d) (SPATIAL_MODULI_from_DTAU_DF_3_ok a b c d))). Qed.
 Print Assumptions C23_SPATIAL_MODULI_from_DTAU_DF.
 
 Theorem C23_C_TRUESDELL_from_DTAU_DF : forall a b c d : nat -> R,
   (det2 (full_t 1%nat c) <> 0 -> C_TRUESDELL_from_DTAU_DF_1 a b c d = flat_A 1%nat (spec_C_TRUESDELL_from_DTAU_DF 1%nat (full_C 1%nat a) (full_t 1%nat b) (full_t 1%nat c) (full_s 1%nat d))) /\
   (det2 (full_t 2%nat c) <> 0 -> C_TRUESDELL_from_DTAU_DF_2 a b c d = flat_A 2%nat (spec_C_TRUESDELL_from_DTAU_DF 2%nat (full_C 2%nat a) (full_t 2%nat b) (full_t 2%nat c) (full_s 2%nat d))) /\
   (det2 (full_t 3%nat c) <> 0 -> C_TRUESDELL_from_DTAU_DF_3 a b c d = flat_A 3%nat (spec_C_TRUESDELL_from_DTAU_DF 3%nat (full_C 3%nat a) (full_t 3%nat b) (full_t 3%nat c) (full_s 3%nat d))).
-Proof. intros; exact (conj (C_TRUESDELL_from_DTAU_DF_1_ok a b c d) (conj (C_TRUESDELL_from_DTAU_DF_2_ok a b c d) (C_TRUESDELL_from_DTAU_DF_3_ok a b c d))). Qed.
+Proof. intros a b c d; exact (conj (C_TRUESDELL_from_DTAU_DF_1_ok a b c d) (conj (C_TRUESDELL_from_DTAU_DF_2_ok a b c d) (C_TRUESDELL_from_DTAU_DF_3_ok a b c d))). Qed.
 Print Assumptions C23_C_TRUESDELL_from_DTAU_DF.
 
 Theorem C23_rt_DS_DEGL_DS_DC : forall a b c d : nat -> R,
   (rt_DS_DEGL_DS_DC_1 a b c d = flat_A 1%nat (spec_rt_DS_DEGL_DS_DC 1%nat (full_A 1%nat a) (full_t 1%nat b) (full_t 1%nat c) (full_s 1%nat d))) /\
   (rt_DS_DEGL_DS_DC_2 a b c d = flat_A 2%nat (spec_rt_DS_DEGL_DS_DC 2%nat (full_A 2%nat a) (full_t 2%nat b) (full_t 2%nat c) (full_s 2%nat d))) /\
   (rt_DS_DEGL_DS_DC_3 a b c d = flat_A 3%nat (spec_rt_DS_DEGL_DS_DC 3%nat (full_A 3%nat a) (full_t 3%nat b) (full_t 3%nat c) (full_s 3%nat d))).
-Proof. intros; exact (conj (rt_DS_DEGL_DS_DC_1_ok a b c d) (conj (rt_DS_DEGL_DS_DC_2_ok a b c d) (rt_DS_DEGL_DS_DC_3_ok a b c d))). Qed.
+Proof. intros a b c d; exact (conj (rt_DS_DEGL_DS_DC_1_ok a b c d) (conj (rt_DS_DEGL_DS_DC_2_ok a b c d) (rt_DS_DEGL_DS_DC_3_ok a b c d))). Qed.
 Print Assumptions C23_rt_DS_DEGL_DS_DC.
 
 Theorem C23_rt_C_TRUESDELL_SPATIAL_MODULI : forall a b c d : nat -> R,
   (det2 (full_t 1%nat c) <> 0 -> rt_C_TRUESDELL_SPATIAL_MODULI_1 a b c d = flat_A 1%nat (spec_rt_C_TRUESDELL_SPATIAL_MODULI 1%nat (full_A 1%nat a) (full_t 1%nat b) (full_t 1%nat c) (full_s 1%nat d))) /\
   (det2 (full_t 2%nat c) <> 0 -> rt_C_TRUESDELL_SPATIAL_MODULI_2 a b c d = flat_A 2%nat (spec_rt_C_TRUESDELL_SPATIAL_MODULI 2%nat (full_A 2%nat a) (full_t 2%nat b) (full_t 2%nat c) (full_s 2%nat d))) /\
   (det2 (full_t 3%nat c) <> 0 -> rt_C_TRUESDELL_SPATIAL_MODULI_3 a b c d = flat_A 3%nat (spec_rt_C_TRUESDELL_SPATIAL_MODULI 3%nat (full_A 3%nat a) (full_t 3%nat b) (full_t 3%nat c) (full_s 3%nat d))).
-Proof. intros; exact (conj (rt_C_TRUESDELL_SPATIAL_MODULI_1_ok a b c d) (conj (rt_C_TRUESDELL_SPATIAL_MODULI_2_ok a b c d) (rt_C_TRUESDELL_SPATIAL_MODULI_3_ok a b c d))). Qed.
+Proof. intros a b c d; exact (conj (rt_C_TRUESDELL_SPATIAL_MODULI_1_ok a b c d) (conj (rt_C_TRUESDELL_SPATIAL_MODULI_2_ok a b c d) (rt_C_TRUESDELL_SPATIAL_MODULI_3_ok a b c d))). Qed.
 Print Assumptions C23_rt_C_TRUESDELL_SPATIAL_MODULI.
 
 Theorem C23_rt_SPATIAL_MODULI_C_TAU_JAUMANN : forall a b c d : nat -> R,
   (rt_SPATIAL_MODULI_C_TAU_JAUMANN_1 a b c d = flat_A 1%nat (spec_rt_SPATIAL_MODULI_C_TAU_JAUMANN 1%nat (full_A 1%nat a) (full_t 1%nat b) (full_t 1%nat c) (full_s 1%nat d))) /\
   (rt_SPATIAL_MODULI_C_TAU_JAUMANN_2 a b c d = flat_A 2%nat (spec_rt_SPATIAL_MODULI_C_TAU_JAUMANN 2%nat (full_A 2%nat a) (full_t 2%nat b) (full_t 2%nat c) (full_s 2%nat d))) /\
   (rt_SPATIAL_MODULI_C_TAU_JAUMANN_3 a b c d = flat_A 3%nat (spec_rt_SPATIAL_MODULI_C_TAU_JAUMANN 3%nat (full_A 3%nat a) (full_t 3%nat b) (full_t 3%nat c) (full_s 3%nat d))).
-Proof. intros; exact (conj (rt_SPATIAL_MODULI_C_TAU_JAUMANN_1_ok a b c d) (conj (rt_SPATIAL_MODULI_C_TAU_JAUMANN_2_ok a b c d) (rt_SPATIAL_MODULI_C_TAU_JAUMANN_3_ok a b c d))). Qed.
+Proof. intros a b c d; exact (conj (rt_SPATIAL_MODULI_C_TAU_JAUMANN_1_ok a b c d) (conj (rt_SPATIAL_MODULI_C_TAU_JAUMANN_2_ok a b c d) (rt_SPATIAL_MODULI_C_TAU_JAUMANN_3_ok a b c d))). Qed.
 Print Assumptions C23_rt_SPATIAL_MODULI_C_TAU_JAUMANN.
 
 Theorem C23_rt_SPATIAL_MODULI_ABAQUS : forall a b c d : nat -> R,
   (det2 (full_t 1%nat c) <> 0 -> rt_SPATIAL_MODULI_ABAQUS_1 a b c d = flat_A 1%nat (spec_rt_SPATIAL_MODULI_ABAQUS 1%nat (full_A 1%nat a) (full_t 1%nat b) (full_t 1%nat c) (full_s 1%nat d))) /\
   (det2 (full_t 2%nat c) <> 0 -> rt_SPATIAL_MODULI_ABAQUS_2 a b c d = flat_A 2%nat (spec_rt_SPATIAL_MODULI_ABAQUS 2%nat (full_A 2%nat a) (full_t 2%nat b) (full_t 2%nat c) (full_s 2%nat d))) /\
   (det2 (full_t 3%nat c) <> 0 -> rt_SPATIAL_MODULI_ABAQUS_3 a b c d = flat_A 3%nat (spec_rt_SPATIAL_MODULI_ABAQUS 3%nat (full_A 3%nat a) (full_t 3%nat b) (full_t 3%nat c) (full_s 3%nat d))).
-Proof. intros; exact (conj (rt_SPATIAL_MODULI_ABAQUS_1_ok a b c d) (conj (rt_SPATIAL_MODULI_ABAQUS_2_ok a b c d) (rt_SPATIAL_MODULI_ABAQUS_3_ok a b c d))). Qed.
+Proof. intros a b c d; exact (conj (rt_SPATIAL_MODULI_ABAQUS_1_ok a b c d) (conj (rt_SPATIAL_MODULI_ABAQUS_2_ok a b c d) (rt_SPATIAL_MODULI_ABAQUS_3_ok a b c d))). Qed.
 Print Assumptions C23_rt_SPATIAL_MODULI_ABAQUS.
 
 Theorem C23_rt_C_TAU_JAUMANN_ABAQUS : forall a b c d : nat -> R,
   (det2 (full_t 1%nat c) <> 0 -> rt_C_TAU_JAUMANN_ABAQUS_1 a b c d = flat_A 1%nat (spec_rt_C_TAU_JAUMANN_ABAQUS 1%nat (full_A 1%nat a) (full_t 1%nat b) (full_t 1%nat c) (full_s 1%nat d))) /\
   (det2 (full_t 2%nat c) <> 0 -> rt_C_TAU_JAUMANN_ABAQUS_2 a b c d = flat_A 2%nat (spec_rt_C_TAU_JAUMANN_ABAQUS 2%nat (full_A 2%nat a) (full_t 2%nat b) (full_t 2%nat c) (full_s 2%nat d))) /\
   (det2 (full_t 3%nat c) <> 0 -> rt_C_TAU_JAUMANN_ABAQUS_3 a b c d = flat_A 3%nat (spec_rt_C_TAU_JAUMANN_ABAQUS 3%nat (full_A 3%nat a) (full_t 3%nat b) (full_t 3%nat c) (full_s 3%nat d))).
-Proof. intros; exact (conj (rt_C_TAU_JAUMANN_ABAQUS_1_ok a b c d) (conj (rt_C_TAU_JAUMANN_ABAQUS_2_ok a b c d) (rt_C_TAU_JAUMANN_ABAQUS_3_ok a b c d))). Qed.
+Proof. intros a b c d; exact (conj (rt_C_TAU_JAUMANN_ABAQUS_1_ok a b c d) (conj (rt_C_TAU_JAUMANN_ABAQUS_2_ok a b c d) (rt_C_TAU_JAUMANN_ABAQUS_3_ok a b c d))). Qed.
 Print Assumptions C23_rt_C_TAU_JAUMANN_ABAQUS.
 
 Theorem C23_rt_DSIG_DF_DSIG_DDF : forall a b c d : nat -> R,
   (det2 (full_t 1%nat b) <> 0 -> rt_DSIG_DF_DSIG_DDF_1 a b c d = flat_C 1%nat (spec_rt_DSIG_DF_DSIG_DDF 1%nat (full_C 1%nat a) (full_t 1%nat b) (full_t 1%nat c) (full_s 1%nat d))) /\
   (det2 (full_t 2%nat b) <> 0 -> rt_DSIG_DF_DSIG_DDF_2 a b c d = flat_C 2%nat (spec_rt_DSIG_DF_DSIG_DDF 2%nat (full_C 2%nat a) (full_t 2%nat b) (full_t 2%nat c) (full_s 2%nat d))).
-Proof. intros; exact (conj (rt_DSIG_DF_DSIG_DDF_1_ok a b c d) (rt_DSIG_DF_DSIG_DDF_2_ok a b c d)). Qed.
+Proof. intros a b c d; exact (conj (rt_DSIG_DF_DSIG_DDF_1_ok a b c d) (rt_DSIG_DF_DSIG_DDF_2_ok a b c d)). Qed.
 Print Assumptions C23_rt_DSIG_DF_DSIG_DDF.
 
 Theorem C23_rt_DTAU_DF_DTAU_DDF : forall a b c d : nat -> R,
   (det2 (full_t 1%nat b) <> 0 -> rt_DTAU_DF_DTAU_DDF_1 a b c d = flat_C 1%nat (spec_rt_DTAU_DF_DTAU_DDF 1%nat (full_C 1%nat a) (full_t 1%nat b) (full_t 1%nat c) (full_s 1%nat d))) /\
   (det2 (full_t 2%nat b) <> 0 -> rt_DTAU_DF_DTAU_DDF_2 a b c d = flat_C 2%nat (spec_rt_DTAU_DF_DTAU_DDF 2%nat (full_C 2%nat a) (full_t 2%nat b) (full_t 2%nat c) (full_s 2%nat d))).
-Proof. intros; exact (conj (rt_DTAU_DF_DTAU_DDF_1_ok a b c d) (rt_DTAU_DF_DTAU_DDF_2_ok a b c d)). Qed.
+Proof. intros a b c d; exact (conj (rt_DTAU_DF_DTAU_DDF_1_ok a b c d) (rt_DTAU_DF_DTAU_DDF_2_ok a b c d)). Qed.
 Print Assumptions C23_rt_DTAU_DF_DTAU_DDF.
 
 Theorem C23_rt_DS_DEGL_SPATIAL_MODULI : forall a b c d : nat -> R,
   (det2 (full_t 1%nat c) <> 0 -> rt_DS_DEGL_SPATIAL_MODULI_1 a b c d = flat_A 1%nat (spec_rt_DS_DEGL_SPATIAL_MODULI 1%nat (full_A 1%nat a) (full_t 1%nat b) (full_t 1%nat c) (full_s 1%nat d))) /\
   (det2 (full_t 2%nat c) <> 0 -> rt_DS_DEGL_SPATIAL_MODULI_2 a b c d = flat_A 2%nat (spec_rt_DS_DEGL_SPATIAL_MODULI 2%nat (full_A 2%nat a) (full_t 2%nat b) (full_t 2%nat c) (full_s 2%nat d))).
-Proof. intros; exact (conj (rt_DS_DEGL_SPATIAL_MODULI_1_ok a b c d) (rt_DS_DEGL_SPATIAL_MODULI_2_ok a b c d)). Qed.
+Proof. intros a b c d; exact (conj (rt_DS_DEGL_SPATIAL_MODULI_1_ok a b c d) (rt_DS_DEGL_SPATIAL_MODULI_2_ok a b c d)). Qed.
 Print Assumptions C23_rt_DS_DEGL_SPATIAL_MODULI.
 
 Theorem C23_rt_C_TAU_JAUMANN_DTAU_DF : forall a b c d : nat -> R,
   (det2 (full_t 1%nat c) <> 0 -> rt_C_TAU_JAUMANN_DTAU_DF_1 a b c d = flat_A 1%nat (spec_rt_C_TAU_JAUMANN_DTAU_DF 1%nat (full_A 1%nat a) (full_t 1%nat b) (full_t 1%nat c) (full_s 1%nat d))) /\
   (det2 (full_t 2%nat c) <> 0 -> rt_C_TAU_JAUMANN_DTAU_DF_2 a b c d = flat_A 2%nat (spec_rt_C_TAU_JAUMANN_DTAU_DF 2%nat (full_A 2%nat a) (full_t 2%nat b) (full_t 2%nat c) (full_s 2%nat d))).
-Proof. intros; exact (conj (rt_C_TAU_JAUMANN_DTAU_DF_1_ok a b c d) (rt_C_TAU_JAUMANN_DTAU_DF_2_ok a b c d)). Qed.
+Proof. intros a b c d; exact (conj (rt_C_TAU_JAUMANN_DTAU_DF_1_ok a b c d) (rt_C_TAU_JAUMANN_DTAU_DF_2_ok a b c d)). Qed.
 Print Assumptions C23_rt_C_TAU_JAUMANN_DTAU_DF.
 
 Theorem C23_rt_SPATIAL_MODULI_DTAU_DF : forall a b c d : nat -> R,
   (det2 (full_t 1%nat c) <> 0 -> rt_SPATIAL_MODULI_DTAU_DF_1 a b c d = flat_A 1%nat (spec_rt_SPATIAL_MODULI_DTAU_DF 1%nat (full_A 1%nat a) (full_t 1%nat b) (full_t 1%nat c) (full_s 1%nat d))) /\
   (det2 (full_t 2%nat c) <> 0 -> rt_SPATIAL_MODULI_DTAU_DF_2 a b c d = flat_A 2%nat (spec_rt_SPATIAL_MODULI_DTAU_DF 2%nat (full_A 2%nat a) (full_t 2%nat b) (full_t 2%nat c) (full_s 2%nat d))).
-Proof. intros; exact (conj (rt_SPATIAL_MODULI_DTAU_DF_1_ok a b c d) (rt_SPATIAL_MODULI_DTAU_DF_2_ok a b c d)). Qed.
+Proof. intros a b c d; exact (conj (rt_SPATIAL_MODULI_DTAU_DF_1_ok a b c d) (rt_SPATIAL_MODULI_DTAU_DF_2_ok a b c d)). Qed.
 Print Assumptions C23_rt_SPATIAL_MODULI_DTAU_DF.
